@@ -40,6 +40,7 @@ pub struct IOp {
 pub struct ICase {
     pub docs: Vec<(Vec<usize>, usize)>,
     pub order: Vec<usize>,
+    pub g: String,
     pub ops: Vec<IOp>,
 }
 
@@ -101,8 +102,7 @@ pub fn parse(input: &str) -> Option<ICase> {
         return None;
     }
     let docs = parse_docs(toks[1])?;
-    let order: Vec<usize> =
-        if toks[2] == "?" { vec![] } else { nat_list(toks[2], ',')?.into_iter().map(|x| x as usize).collect() };
+    let order: Vec<usize> = vec![];
     let mut ops = vec![];
     for (i, t) in toks[3..].iter().enumerate() {
         let (author, doc, ts, tips, actions) = parse_op_generic(t, docs.len(), i, parse_action)?;
@@ -115,14 +115,14 @@ pub fn parse(input: &str) -> Option<ICase> {
         }
         ops.push(IOp { author, doc, ts, tips, actions });
     }
-    Some(ICase { docs, order, ops })
+    Some(ICase { docs, order, g: "?".into(), ops })
 }
 
 pub fn render(c: &ICase) -> String {
     let mut s = format!(
         "issue {} {}",
         show_docs(&c.docs),
-        show_list(&c.order.iter().map(|x| x.to_string()).collect::<Vec<_>>(), ",")
+        c.g
     );
     for o in &c.ops {
         s.push_str(&format!(
@@ -220,6 +220,7 @@ pub fn run(w: &mut World, case: &mut ICase) -> Result<IRun, String> {
         |_, _| vec![],
     )?;
     let object = cob::ObjectId::from(ids[0]);
+    case.g = graph_token(&w.repo, &ids);
     let res = verif_common::catch(|| cob::get::<Traced<Issue>, _>(&w.repo, &type_name, &object));
     for h in &holders {
         w.remove_ref(h, &type_name, &object);
@@ -249,7 +250,12 @@ pub fn run(w: &mut World, case: &mut ICase) -> Result<IRun, String> {
         prev = s.after.clone();
     }
     case.order = order;
-    let out = format!("r={};{}", if res_s.is_empty() { "-".into() } else { res_s }, show_issue(w, &ids, &traced.inner)?);
+    let out = format!(
+        "o={};r={};{}",
+        show_list(&case.order.iter().map(|x| x.to_string()).collect::<Vec<_>>(), ","),
+        if res_s.is_empty() { "-".into() } else { res_s },
+        show_issue(w, &ids, &traced.inner)?
+    );
     Ok(IRun { output: out, steps, init: Some(traced.init), last: Some(traced.inner), docs, ids, tags })
 }
 
